@@ -405,6 +405,17 @@ pub fn c10_script(r: &mut Rng, _index: u64, _tier: Tier) -> (CaseCfg, Vec<Step>)
             _ => {}
         }
     }
+    // one case in eight: the transport fails the flush of the client's first .. fourth packet
+    // after the CONNECT (a PINGREQ, a request, an acknowledgement); the application goes on
+    // waiting on the handle for as long as it says it is connected
+    if r.chance(1, 8) {
+        let at = FaultAt::Flush(1 + r.below(4));
+        let kind = FaultKind::Error(*r.pick(&[ErrKind::BrokenPipe, ErrKind::ConnectionReset, ErrKind::TimedOut]));
+        if let Some(Step::Connect(c)) = s.iter_mut().rev().find(|x| matches!(x, Step::Connect(_))) {
+            c.faults.push(FaultPlan { at, kind });
+        }
+        s.push(if use_recv { Step::Recv { max_wait: 3 * base + 6_000_000, cancel_at: None } } else { Step::Poll { max_wait: 3 * base + 6_000_000, cancel_at: None } });
+    }
     s.push(if use_recv { Step::Recv { max_wait: 3 * base + 6_000_000, cancel_at: None } } else { Step::Poll { max_wait: 3 * base + 6_000_000, cancel_at: None } });
     s.push(Step::Poll { max_wait: 1, cancel_at: None });
     (cfg, s)
@@ -421,7 +432,36 @@ pub fn c14_script(r: &mut Rng, _index: u64, _tier: Tier) -> (CaseCfg, Vec<Step>)
     let pid = *r.pick(&[1u16, 7, 255, 256, 65535]);
     let publish = |qos: u8, dup: bool| Step::Broker(BrokerAct::Send(SPacket::Publish { dup, qos, retain: false, topic: "m".into(), pid: Some(pid), props: vec![], payload: vec![9, 9] }));
     let mut s = vec![];
-    match r.below(9) {
+    match r.below(10) {
+        // the transport answers one write of a queued packet with Ok(0) (the call reports it, the
+        // handle stays up); the limit of this connection's CONNACK goes on applying to whatever
+        // the application asks for next on it
+        9 => {
+            let limit = *r.pick(&[20u32, 24, 40, 100]);
+            let mut props = vec![Prop::MaximumPacketSize(limit)];
+            if r.chance(1, 2) {
+                props.push(Prop::MaximumQoS(*r.pick(&[0u8, 1])));
+            }
+            s.push(connect_with(SpMode::Force(false), AckMode::Immediate, props));
+            if r.chance(1, 2) {
+                s.push(publish(1, false));
+            }
+            s.push(Step::Io { policy: None, faults: vec![FaultPlan { at: FaultAt::OutBytes(0), kind: FaultKind::WriteZero }] });
+            s.push(match r.below(3) {
+                0 => pubq(1, "z", 0x2E0, 2),
+                1 => Step::Subscribe(SubSpec { filters: vec![FilterSpec { filter: "z".into(), max_qos: 1, no_local: false, rap: false, rh: 0 }], props: vec![], cancel_at: None }),
+                _ => poll0(),
+            });
+            for k in 0..3u32 {
+                s.push(match r.below(4) {
+                    0 => pubq(1 + r.below(2) as u8, "over/the/limit", 0x2E1 + k, limit as usize + r.below(30)),
+                    1 => pubq(0, "over/the/limit", 0x2E5 + k, limit as usize + r.below(30)),
+                    2 => Step::Subscribe(SubSpec { filters: vec![FilterSpec { filter: "o".repeat(limit as usize + r.below(9)), max_qos: 1, no_local: false, rap: false, rh: 0 }], props: vec![], cancel_at: None }),
+                    _ => Step::Unsubscribe(UnsubSpec { filters: vec!["u".repeat(limit as usize + r.below(9))], props: vec![], cancel_at: None }),
+                });
+                s.push(poll0());
+            }
+        }
         // limits on both sides of 64 KiB with requests just below, at and above them (a transmit
         // arena large enough to hold such requests): the comparison must not be made in 16 bits
         8 => {
@@ -779,6 +819,44 @@ pub fn ping_between_pieces_script(r: &mut Rng, _index: u64, _tier: Tier) -> (Cas
     }
     for _ in 0..6 {
         s.push(Step::Poll { max_wait: eff / 2, cancel_at: None });
+    }
+    (cfg, s)
+}
+
+/// A keep-alive probe falls due while the send buffer is full: the write that would start the
+/// PINGREQ accepts nothing, the poll() waiting there is given up, and this happens 1..12 times in
+/// a row before the transport takes data again. One probe is owed, whatever the number of calls.
+pub fn stalled_probe_script(r: &mut Rng, _index: u64, _tier: Tier) -> (CaseCfg, Vec<Step>) {
+    let ka = *r.pick(&[1u16, 2, 4, 30]);
+    let cfg = CaseCfg { rx: 128, tx: 512, keepalive: ka, ..CaseCfg::default() };
+    let eff = ka as u64 * 1_000_000;
+    let lead = 5_000_000u64.min(eff / 2);
+    let mut s = vec![Step::Connect(ConnectSpec { policy: IoPolicy::default(), faults: vec![], connack: ConnackSpec::ok(SpMode::Force(false)), broker: BrokerPolicy { acks: AckMode::Hold, ping: AckMode::Immediate, fail_pct: 0, longform_pct: 0 }, cancel_at: None })];
+    for k in 0..r.below(3) {
+        s.push(match r.below(3) {
+            0 => pubq(1, "probe/a", 70 + k as u32, r.range(1, 20)),
+            1 => pubq(2, "probe/b", 80 + k as u32, r.range(1, 20)),
+            _ => Step::Subscribe(SubSpec { filters: vec![FilterSpec { filter: "probe/#".into(), max_qos: 1, no_local: false, rap: false, rh: 0 }], props: vec![], cancel_at: None }),
+        });
+    }
+    // (sometimes the broker has something for the client as well: its acknowledgement queues up
+    // behind the probe)
+    if r.chance(1, 3) {
+        s.push(Step::Broker(BrokerAct::Send(crate::refcodec::SPacket::Publish { dup: false, qos: 1, retain: false, topic: "probe/in".into(), pid: Some(9), props: vec![], payload: vec![1, 2, 3] })));
+    }
+    s.push(Step::Advance(eff - lead + *r.pick(&[0u64, 1, 1000])));
+    let n = *r.pick(&[1usize, 2, 3, 7, 8, 9, 10, 12]);
+    s.push(Step::Broker(BrokerAct::WriteGate { after: 0, blocks: n as u8 }));
+    for _ in 0..n {
+        s.push(match r.below(4) {
+            0 => Step::Recv { max_wait: 0, cancel_at: None },
+            1 => Step::Drive { cancel_at: Some(1) },
+            _ => poll0(),
+        });
+    }
+    s.push(Step::Broker(BrokerAct::Release { n: 8, order: Order::Fifo }));
+    for _ in 0..4 {
+        s.push(poll0());
     }
     (cfg, s)
 }
